@@ -107,14 +107,22 @@ def random_variant(rng, case, force_labels=None):
     return v
 
 
-def materialize(case):
-    """-> (graph object, source, sink, back) ; back maps an actual label to the case's JSON label"""
+def labeller(case):
+    """JSON label -> the actual label of the call (a new object on every use)"""
     v = case.get("variant") or {}
     idx = first_occurrence(case)
     scheme, perm = v.get("labels"), v.get("perm")
 
     def lab(x):
         return make_label(scheme, perm[idx[x]]) if scheme else x
+    return lab
+
+
+def materialize(case):
+    """-> (graph object, source, sink, back) ; back maps an actual label to the case's JSON label"""
+    v = case.get("variant") or {}
+    idx = first_occurrence(case)
+    lab = labeller(case)
 
     back = {lab(x): x for x in idx}
     mk_adj = tuple if v.get("adj") == "tuple" else list
@@ -258,3 +266,110 @@ def magnify(rng, case):
     c["graph"] = [[u, [[e[0], m(e[1])] + list(e[2:]) for e in adj]] for u, adj in case["graph"]]
     c["magnitude"] = mode
     return c
+
+
+# ---------------------------------------------------------------- W: work volume (iteration counts of the internal loops)
+def gen_work(rng, loop, target):
+    """moderate input size, MANY iterations of one internal loop, answer known by construction.
+    loop = 'augmentations' (outer while), 'augmentations_fan', 'bfs_pops_path' (queue loop / path length),
+    'bfs_pops_star' (queue loop / neighbour loop of one node).  case['work'] = counts by construction."""
+    if loop == "augmentations":
+        # spine s -> v0 -> v1 -> ...; spine node j feeds hub a_j, the hub feeds L_j leaves, each leaf has an arc into t.
+        # every s-t path has its own unit bottleneck, so the number of augmentations is the value; BFS stays cheap because
+        # exhausted groups are not entered again and group j is reached at depth j + 3
+        L = rng.randint(8, 14) if target < 500 else rng.randint(60, 130) if target < 50000 else rng.randint(200, 250)
+        G = -(-target // L) + rng.randint(0, 2)
+        unit_at_leaf = rng.random() < 0.5
+        arcs, exp = [("s", "v0", 0)], 0
+        for j in range(G):
+            Lj = L + rng.choice([0, 0, 1, -1])
+            hubcap = Lj if rng.random() < 0.7 else Lj + 3
+            arcs.append((f"v{j}", f"a{j}", hubcap))
+            if j + 1 < G:
+                arcs.append((f"v{j}", f"v{j + 1}", 0))
+            for i in range(Lj):
+                arcs.append((f"a{j}", f"m{j}_{i}", 1 if unit_at_leaf else 2))
+                arcs.append((f"m{j}_{i}", "t", 2 if unit_at_leaf else 1))
+            exp += Lj
+        arcs = [(u, v, c if c else exp + 5) for u, v, c in arcs]       # spine arcs: more than the whole value
+        work = {"augmentations": exp, "path_length": G + 3}
+    elif loop == "augmentations_fan":
+        k = target + rng.randint(0, 3)
+        arcs = [("s", f"m{i}", 1) for i in range(k)] + [(f"m{i}", "t", 1) for i in range(k)]
+        exp = k
+        work = {"augmentations": k, "neighbours_scanned_one_node": k, "bfs_pops_one_search": k + 2}
+    elif loop == "bfs_pops_path":
+        n = target + rng.randint(0, 9)
+        caps = [rng.choice([2, 3, 5]) for _ in range(n + 1)]
+        caps[rng.randrange(n + 1)] = 1
+        names = ["s"] + [f"p{j}" for j in range(n)] + ["t"]
+        arcs = [(a, b, x) for (a, b), x in zip(zip(names, names[1:]), caps)]
+        if rng.random() < 0.5:
+            arcs.reverse()
+        exp = 1
+        work = {"bfs_pops_one_search": n + 2, "path_length": n + 2}
+    else:   # bfs_pops_star: one node with `n` neighbours, nearly all dead ends
+        n = target + rng.randint(0, 9)
+        live = sorted(rng.sample(range(n), 3))
+        arcs = [("s", f"d{i}", 1 + (i % 3)) for i in range(n)] + [(f"d{i}", "t", 2) for i in live]
+        exp = sum(min(1 + (i % 3), 2) for i in live)
+        work = {"bfs_pops_one_search": n + 1, "neighbours_scanned_one_node": n}
+    adj, order = {}, []
+    for u, v, x in arcs:
+        if u not in adj:
+            adj[u] = []
+            order.append(u)
+        adj[u].append([v, x])
+    return {"graph": [[u, adj[u]] for u in order], "source": "s", "sink": "t", "expected": exp, "big": "work:" + loop, "work": work}
+
+
+# ---------------------------------------------------------------- A2: in-place edits of the caller's graph between calls
+def edit_in_place(rng, case, g, lab):
+    """apply ONE random edit to the JSON case and, in place, to the live graph object g (adjacency lists must be lists).
+    Only existing nodes are used, so the first-occurrence numbering of the surviving nodes of g stays what it was.
+    -> description of the edit"""
+    nodes = list(first_occurrence(case))
+    rows = case["graph"]
+    with_arcs = [i for i, (_, adj) in enumerate(rows) if adj]
+    r = rng.random()
+    mk_entry = type(next((e for k in g for e in g[k]), ()))
+    if r < 0.4 and with_arcs:                       # replace one element: same dict, same list, same length
+        i = rng.choice(with_arcs)
+        j = rng.randrange(len(rows[i][1]))
+        e = rows[i][1][j]
+        new = [rng.choice(nodes), rng.choice([0, 1, 2, 3, e[1] + 1])] + list(e[2:])
+        rows[i][1][j] = new
+        g[lab(rows[i][0])][j] = mk_entry([lab(new[0])] + new[1:])
+        return f"replaced arc {j} of {rows[i][0]!r} by {new}"
+    if r < 0.65 and rows:                           # append an arc
+        i = rng.randrange(len(rows))
+        new = [rng.choice(nodes), rng.choice([1, 2, 3])] + ([1] if rows[i][1] and len(rows[i][1][0]) > 2 else [])
+        rows[i][1].append(new)
+        g[lab(rows[i][0])].append(mk_entry([lab(new[0])] + new[1:]))
+        return f"appended arc {new} to {rows[i][0]!r}"
+    if r < 0.85 and with_arcs:                      # delete an arc
+        i = rng.choice(with_arcs)
+        j = rng.randrange(len(rows[i][1]))
+        key = lab(rows[i][0])
+        del rows[i][1][j]
+        del g[key][j]
+        return f"deleted arc {j} of {rows[i][0]!r}"
+    missing = [x for x in nodes if x not in [u for u, _ in rows]]
+    if missing:                                     # a new key for a node that had no adjacency list yet
+        x = rng.choice(missing)
+        new = [rng.choice(nodes), rng.choice([1, 2, 3])]
+        key = lab(x)                                # before the JSON edit: the numbering is taken from the old case
+        tgt = lab(new[0])
+        rows.append([x, [new]])
+        g[key] = [mk_entry([tgt] + new[1:])]
+        return f"added key {x!r} with arc {new}"
+    if with_arcs:                                   # swap two capacities in one list (length and ids of the list unchanged)
+        i = rng.choice(with_arcs)
+        adj = rows[i][1]
+        a, b = rng.randrange(len(adj)), rng.randrange(len(adj))
+        adj[a][1], adj[b][1] = adj[b][1], adj[a][1]
+        key = lab(rows[i][0])
+        for j in (a, b):
+            g[key][j] = mk_entry([lab(adj[j][0])] + adj[j][1:])
+        return f"swapped capacities {a},{b} of {rows[i][0]!r}"
+    return "no edit"
